@@ -118,6 +118,31 @@ class BatchNaN(Batch):
         return S.observation_nan_policy("mask")
 
 
+class MTKron(Default):
+    """exact multitask GP with Kronecker structure (MultitaskKernel, MultitaskGaussianLikelihood): targets are n x t"""
+
+    name = "mt_kronecker"
+    T = 2
+
+    def __init__(self, seed):
+        super().__init__(seed)
+        g = util.gen(seed + 909)
+        t = self.T
+        self.y = torch.stack([self.y, torch.cos(self.X[..., 0])], -1) + 0.05 * util.randn(g, self.n, t)
+        self.y2 = torch.stack([self.y2, torch.sin(self.X2[..., 1])], -1)
+        self.y3 = util.randn(g, self.n, t)
+        self.yf = util.randn(g, 2, t)
+
+    def build(self):
+        lik = gpytorch.likelihoods.MultitaskGaussianLikelihood(num_tasks=self.T, rank=1)
+        return util.MTGP(self.X, self.y, lik, self.T, 1, {"k": "rbf"}, D)
+
+    def targets_like(self, m):
+        """other targets for the model's CURRENT inputs"""
+        X = m.train_inputs[0]
+        return torch.stack([torch.cos(X.sum(-1) * 1.3), torch.sin(X[..., 0] * 0.7)], -1)
+
+
 class SKI(Default):
     name = "ski"
 
@@ -237,7 +262,7 @@ class LMC(SVGP):
         self.y = torch.stack([self.y, self.y * 0.5, -self.y], -1)
 
 
-FAMILIES = {c.name: c for c in (Default, DefaultIterative, Batch, BatchNaN, SKI, SKIDyn, SGPR, SVGP, SVGPU, SVGPMF, SVGPBD, LMC)}
+FAMILIES = {c.name: c for c in (Default, DefaultIterative, Batch, BatchNaN, MTKron, SKI, SKIDyn, SGPR, SVGP, SVGPU, SVGPMF, SVGPBD, LMC)}
 
 EXACT_OPS = ["pred", "pred_fpv", "pred_nodetach", "pred_skipvar", "pred_eager", "pred_batch", "train_step", "set_data", "set_targets", "set_targets_strict", "load_sd", "load_sd_same", "fantasy", "prior", "backward", "train_eval"]
 VAR_OPS = ["pred", "pred_batch", "pred_skipvar", "pred_eager", "train_step", "load_sd", "load_sd_same", "prior", "backward", "train_eval"]
@@ -333,8 +358,11 @@ def apply_op(fam, m, op, state):
     elif op == "set_data":
         m.set_train_data(f.X2, f.y2, strict=False)
     elif op == "set_targets":
-        cur_n = m.train_targets.shape[-1]
-        newy = f.y3 if cur_n == f.n else torch.cos(m.train_inputs[0].sum(-1) * 1.3)
+        if hasattr(f, "targets_like"):
+            newy = f.y3 if m.train_targets.shape == f.y3.shape else f.targets_like(m)
+        else:
+            cur_n = m.train_targets.shape[-1]
+            newy = f.y3 if cur_n == f.n else torch.cos(m.train_inputs[0].sum(-1) * 1.3)
         m.set_train_data(targets=newy, strict=False)
     elif op == "set_targets_strict":
         # targets only, default strict=True (same shape as the current targets)
